@@ -1,4 +1,4 @@
-import LentilVerif.Lemmas.Fourier
+import LentilVerif.Lemmas.FourierPad
 /-! # C01 — the matrix-triple-product DFT equals the defining Fourier sum and is invertible
 
 Property theorems only. `dft2`/`idft2` are the executable model of `lentil/fourier.py` (Model/Fourier.lean) instantiated
@@ -49,6 +49,21 @@ theorem dft2_smul (f : Arr ℂ) (c : ℂ) (αr αc : ℝ) (M N : ℤ) (shr shc :
   simp only [dft2_get_eq, dft2Sum, mul_sum, sum_mul]
   refine sum_congr rfl fun y _ => sum_congr rfl fun x _ => ?_
   ring
+
+/-- **sub-array with offset = zero-padded embedding** (reused by C03). Placing an `m × n` array with integer offset
+`(o0, o1)` on any canvas `S0 × S1` of zeros that contains it (both origins at index `⌊n/2⌋`, `padded`) and transforming
+with zero offset gives exactly the transform of the array itself with `offset = (o0, o1)` — for all samplings, output
+shapes, shifts and both flags. -/
+theorem dft2_subarray_offset (f : Arr ℂ) (m n S0 S1 : ℕ) (hm : f.s0 = m) (hn : f.s1 = n) (o0 o1 : ℤ)
+    (hr : 0 ≤ (S0 : ℤ) / 2 - (m : ℤ) / 2 + o0 ∧ (S0 : ℤ) / 2 - (m : ℤ) / 2 + o0 + m ≤ S0)
+    (hc : 0 ≤ (S1 : ℤ) / 2 - (n : ℤ) / 2 + o1 ∧ (S1 : ℤ) / 2 - (n : ℤ) / 2 + o1 + n ≤ S1)
+    (αr αc : ℝ) (M N : ℤ) (shr shc : ℝ) (unitary : Bool) (u v : ℤ) :
+    (dft2 (padded f o0 o1 S0 S1) αr αc M N shr shc 0 0 unitary).get u v
+      = (dft2 f αr αc M N shr shc o0 o1 unitary).get u v :=
+  dft2_padded f m n S0 S1 hm hn o0 o1 hr hc αr αc M N shr shc unitary u v
+
+example : ∃ (m S0 : ℕ) (o0 : ℤ), o0 ≠ 0 ∧ 0 ≤ (S0 : ℤ) / 2 - (m : ℤ) / 2 + o0 ∧ (S0 : ℤ) / 2 - (m : ℤ) / 2 + o0 + m ≤ S0 :=
+  ⟨3, 8, -2, by norm_num, by norm_num, by norm_num⟩
 
 /-- **a shift is a phase ramp on the input** (reused by C04). Transforming with output shift `(shr, shc)` equals transforming,
 with zero shift, the input multiplied by `exp(2πi(αr·X·shr + αc·Y·shc))`, `X = x - ⌊m/2⌋ + off_r`, `Y = y - ⌊n/2⌋ + off_c`. -/
